@@ -1004,7 +1004,11 @@ def size_accounting(ctx, rid):
         ctx.undecided(rid, fn, "size accounting of HashChecker.advance not found")
     rets = [n for n in own_nodes(fn.node) if isinstance(n, ast.Return) and isinstance(n.value, ast.Tuple) and len(n.value.elts) == 2]
     ok = bool(rets) and all(norm(r.value.elts[1]) == SIZE for r in rets)
-    ctx.decide(rid, fn, ok, "advance() returns the computed size", "advance() does not return the computed size", "advance :: return")
+    helped = [r for r in rets if isinstance(r.value.elts[1], ast.Call) and C.targets_of(ctx, fn, r.value.elts[1])]
+    if not ok and helped:
+        ctx.undecided(rid, fn, "advance() returns `%s` as the size: computed by a helper that was not followed" % norm(helped[0].value.elts[1]), "advance :: return")
+    else:
+        ctx.decide(rid, fn, ok, "advance() returns the computed size", "advance() does not return the computed size", "advance :: return")
     # the size yielded by process_current is the one advance() returned
     pc = ctx.prog.func("torrentfile.recheck:HashChecker.process_current")
     for r in [n for n in own_nodes(pc.node) if isinstance(n, ast.Return) and isinstance(n.value, ast.Tuple) and len(n.value.elts) == 4]:
